@@ -7,9 +7,10 @@ typedef VF_S TheS;
 typedef VF_S2 TheS2;
 
 static void fs_weights(int prop, uint32_t *w) {
-  static const uint32_t base[kFlatSetNumOps] = {4, 4, 3, 3, 5, 2, 3, 3, 3, 2, 4, 3, 4, 3, 3, 1, 9, 4, 3, 2, 3, 4, 3, 2, 2, 2, 1, 1, 1, 0, 3};
+  static const uint32_t base[kFlatSetNumOps] = {4, 4, 3, 3, 5, 2, 3, 3, 3, 2, 4, 3, 4, 3, 3, 1, 9, 4, 3, 2, 3, 4, 3, 2, 2, 2, 1, 1, 1, 0, 3, 0};
   for (int i = 0; i < kFlatSetNumOps; ++i) w[i] = base[i];
   if (prop == 14) w[29] = 6;
+  if (prop == 9) w[31] = 14;
   if (prop == 6) { w[22] = 6; w[24] = 6; w[21] = 6; w[20] = 5; w[19] = 4; w[25] = 4; }
   if (prop == 12) { w[2] = 10; w[3] = 10; w[7] = 10; w[11] = 6; }
 }
